@@ -197,7 +197,10 @@ def random_value(rng, depth: int = 0, hostile: float = 0.3) -> Any:
     """JSON-like value, nested to depth <= 3."""
     r = rng.random()
     if r < hostile:
-        return rng.choice(HOSTILE_SCALARS if depth else HOSTILE_SCALARS + HOSTILE_COMPOUND)
+        v = rng.choice(HOSTILE_SCALARS if depth else HOSTILE_SCALARS + HOSTILE_COMPOUND)
+        # "now" / "today" name the current time wherever a value is used as a date or as a variable name ({{ [s] }}): render data for
+        # checks that compare outputs must not depend on the clock (C02, which only looks at exception types, draws from the pool itself)
+        return "soon" if v in ("now", "today") else v
     r = rng.random()
     if depth >= 3 or r < 0.55:
         k = rng.random()
